@@ -61,6 +61,10 @@ func main() {
 		UploadURL:     os.Getenv("VERIF_C16_URL"),
 		TelemetryDir:  os.Getenv("VERIF_C16_TDIR"),
 	}
+	if d, err := time.ParseDuration(os.Getenv("VERIF_C16_ASOF")); err == nil && d != 0 {
+		// an upload simulated for another moment; the token's 24 hours stay real time
+		cfg.UploadStartTime = time.Now().Add(d)
+	}
 	if os.Getenv("VERIF_C16_RMEXE") == "1" && lineage == "" {
 		// the executable disappears (an upgrade in progress): the sidecar cannot be exec'ed
 		if exe, err := os.Executable(); err == nil {
